@@ -1,18 +1,69 @@
 (* Props/C02.v — property C02: protobuf write -> read is lossless.  Statements only.
-   Proved: (1) the generic codec theorem, which covers message trees with optional (HasField) and repeated
-   fields exactly as it covers XML elements; (2) enum transport by member name over the protobuf enum tables
-   GENERATED from the *_pb2 descriptors.  The mapping objects <-> messages of the real writer / reader is
-   decided by the round-trip oracle on generated scenarios (no format table for protobuf was built). *)
-From Coq Require Import ZArith String List Bool.
-From CR Require Import Model.Codec Proofs.Codec Model.EnumName Proofs.EnumName Gen.PbEnums Proofs.PbEnums.
+   The protobuf format is data: tables W (what the writer fills) and R (what the reader consumes) are GENERATED
+   into Gen/PbFmt.v on every run from one description (harness/props/c02_pbfmt.py: message types with required /
+   optional-HasField / repeated fields, doubles exact, enums by member name, nested messages), whose presence
+   discipline is re-derived from the writer / reader source (props/c02_scan.py), cross-checked against the *_pb2
+   descriptors (pb_desc, generated too), and tied to the real writer / reader by the correspondence relations of
+   Corr/C02.v (A: written message = write W v; B: read-back value = read R tree), exact, evaluated in Coq. *)
+From Coq Require Import QArith ZArith String List Bool.
+From CR Require Import Model.Codec Proofs.Codec Model.EnumName Proofs.EnumName Gen.PbEnums Proofs.PbEnums
+                       Model.PbDesc Gen.PbFmt Proofs.PbFmt.
 Import ListNotations.
 Open Scope string_scope.
+Open Scope list_scope.
 
+(* generic: for every table with pairwise distinct field names per message, reading what was written gives the
+   value back - nothing dropped, duplicated, re-ordered or altered, absent optional data stays absent *)
 Theorem C02_generic_roundtrip : forall f, wf f = true ->
   forall tag v t, write f tag v = Some t -> read f t = Some v.
 Proof. exact roundtrip. Qed.
+Theorem C02_generic_injective : forall f, wf f = true -> forall tag v1 v2 t,
+  write f tag v1 = Some t -> write f tag v2 = Some t -> v1 = v2.
+Proof. exact write_injective. Qed.
 
-(* every enum of the shipped protobuf definition has pairwise distinct numbers ... *)
+(* the generated tables satisfy the side condition *)
+Theorem C02_writer_table_wf : wf W.pb_root = true.
+Proof. exact writer_table_wf. Qed.
+Theorem C02_reader_table_wf : wf R.pb_root = true.
+Proof. exact reader_table_wf. Qed.
+
+(* the reader's own table differs nowhere from the writer's: every field the writer fills is consumed under the
+   same name with the same presence discipline (HasField where the writer guards) and the same leaf kind *)
+Theorem C02_reader_agrees_with_writer : tdiff W.pb_root R.pb_root = [].
+Proof. exact tables_agree. Qed.
+Theorem C02_agreeing_tables_roundtrip : forall w r, tdiff w r = [] -> wf w = true ->
+  forall tag v t, write w tag v = Some t -> read r t = Some v.
+Proof. exact agreeing_roundtrip. Qed.
+
+(* whole documents (scenario information, tags, location, lanelet network, all obstacle roles, planning
+   problems), written with the writer's table and read with the READER's own table; doubles are exact, so the
+   leaves are identities and the result is the value itself *)
+Theorem C02_document_roundtrip : forall v t,
+  write W.pb_root "CommonRoad" v = Some t -> read R.pb_root t = Some v.
+Proof. exact document_roundtrip. Qed.
+Theorem C02_document_injective : forall v1 v2 t,
+  write W.pb_root "CommonRoad" v1 = Some t -> write W.pb_root "CommonRoad" v2 = Some t -> v1 = v2.
+Proof. exact document_injective. Qed.
+
+(* both tables are legal uses of the shipped message types (field exists, repeated <-> MMany, required by the
+   .proto => MReq and present in the table, leaf kind fits the scalar type, nested table = a table of the
+   field's message type) *)
+Theorem C02_tables_conform_to_descriptors :
+  conforms pb_desc pb_ignored W.records = true /\ conforms pb_desc pb_ignored R.records = true.
+Proof. exact (conj writer_tables_conform reader_tables_conform). Qed.
+
+(* what a deviation of the reader would look like: an optional field consumed without HasField is reported by
+   tdiff and loses exactly the objects that lack the datum *)
+Theorem C02_unguarded_read_detected : tdiff W.f_Rectangle rectangle_unguarded = [["orientation"]].
+Proof. exact unguarded_read_detected. Qed.
+Theorem C02_unguarded_read_refuted : exists t, write W.f_Rectangle "rectangle" plain_rectangle = Some t /\
+  read R.f_Rectangle t = Some plain_rectangle /\ read rectangle_unguarded t = None.
+Proof. exact unguarded_read_refuted. Qed.
+
+(* enums travel by member NAME: every enum-typed field of the tables is enum-typed in the descriptor and its enum
+   table (generated from the *_pb2 descriptors) has pairwise distinct numbers ... *)
+Theorem C02_enum_fields_known : forallb enum_field_ok pb_enum_fields = true.
+Proof. exact enum_fields_known. Qed.
 Theorem C02_enum_tables_distinct : forallb (fun row => numbers_distinct (snd row)) pb_enums = true.
 Proof. exact all_tables_distinct. Qed.
 (* ... hence every member whose name exists in the .proto is transported unchanged *)
@@ -23,12 +74,29 @@ Proof. exact enum_transport. Qed.
 Theorem C02_enum_absent_rejected : forall t name, ~ In name (map fst t) -> encode t name = None.
 Proof. exact encode_absent. Qed.
 
+(* non-vacuity: an enum member, and a concrete rectangle with centre and without orientation *)
 Example C02_nonvacuous : exists t z, In ("TrafficLightState", t) pb_enums /\ encode t "GREEN" = Some z /\
                                       decode t z = Some "GREEN".
 Proof. eexists. eexists. split; [vm_compute; tauto|]. split; vm_compute; reflexivity. Qed.
+Example C02_nonvacuous_message :
+  let v := VRec [VAtom (ANum (2#1)); VAtom (ANum (1#1)); VSome (VRec [VAtom (ANum (3#1)); VAtom (ANum (4#1))]); VNone] in
+  exists t, write W.f_Rectangle "rectangle" v = Some t /\ read R.f_Rectangle t = Some v.
+Proof. eexists. split; vm_compute; reflexivity. Qed.
 
 Print Assumptions C02_generic_roundtrip.
+Print Assumptions C02_generic_injective.
+Print Assumptions C02_writer_table_wf.
+Print Assumptions C02_reader_table_wf.
+Print Assumptions C02_reader_agrees_with_writer.
+Print Assumptions C02_agreeing_tables_roundtrip.
+Print Assumptions C02_document_roundtrip.
+Print Assumptions C02_document_injective.
+Print Assumptions C02_tables_conform_to_descriptors.
+Print Assumptions C02_unguarded_read_detected.
+Print Assumptions C02_unguarded_read_refuted.
+Print Assumptions C02_enum_fields_known.
 Print Assumptions C02_enum_tables_distinct.
 Print Assumptions C02_enum_transport.
 Print Assumptions C02_enum_absent_rejected.
 Print Assumptions C02_nonvacuous.
+Print Assumptions C02_nonvacuous_message.
